@@ -14,6 +14,7 @@ Wide == {L(x) : x \in Names} \cup {IS(x) : x \in Names}
             \cup {[k |-> "data", sz |-> z] : z \in {2, 4, 250}}
             \cup {[k |-> "scope"], [k |-> "ends"]}
             \cup {[k |-> "set", n |-> x, v |-> v] : x \in {"a", "b"}, v \in {0, 2, 300}}
+            \cup {[k |-> "mode", d |-> x] : x \in {"msp430_cpu4", "code", "list"}}
 
 Small == {L("a"), L("b"), IC(1), IC(100), IS("a"), IS("b"), [k |-> "data", sz |-> 2],
           [k |-> "scope"], [k |-> "ends"], [k |-> "set", n |-> "a", v |-> 2], [k |-> "set", n |-> "a", v |-> 100], [k |-> "set", n |-> "b", v |-> 0]}
